@@ -66,7 +66,7 @@ def norm(v):
 DICT_MUT = ["setitem", "delitem", "pop", "popitem", "clear", "update", "update_pairs", "update_kwargs",
             "setdefault", "reset"]
 DICT_READ = ["getitem", "get", "contains", "len", "iter", "keys", "values", "items", "call", "eq", "ne", "repr",
-             "str"]
+             "str"]   # ("getattr" is generated explicitly for attribute-access families)
 LIST_MUT = ["setitem", "delitem", "insert", "append", "extend", "iadd", "remove", "pop", "reverse", "clear",
             "reset"]
 LIST_READ = ["getitem", "len", "iter", "reversed", "contains", "index", "count", "call", "eq", "ne", "lt", "le",
@@ -110,6 +110,12 @@ def _model_apply(c, name, a):
             return c[a[0]]
         if name == "get":
             return c.get(*a)
+        if name == "getattr":          # attribute syntax: missing key -> AttributeError; with a default -> the default
+            if a[0] in c:
+                return c[a[0]]
+            if len(a) > 1:
+                return a[1]
+            raise AttributeError(a[0])
         if name == "contains":
             return a[0] in c
         if name == "len":
@@ -253,6 +259,8 @@ def _lib_apply(n, name, a, attr):
         return getattr(n, a[0]) if attr else n[a[0]]
     if name == "get":
         return n.get(*a)
+    if name == "getattr":
+        return getattr(n, *a)
     if name == "contains":
         return a[0] in n
     if name == "len":
